@@ -725,10 +725,18 @@ fn range_text_sweep(tier: Tier, budget: &Budget, coll: &Collector) -> serde_json
         let case = || json!({"kind": "match", "source": text});
         let hi = if j.incl { j.b } else { j.b - 1 };
         let must_refuse = j.sa.map(|s| s != j.ty).unwrap_or(false) || j.sb.map(|s| s != j.ty).unwrap_or(false) || !j.ty.fits(j.a) || !j.ty.fits(hi);
+        // a non-empty range whose suffixes (if any) are the scrutinee's type and whose end points are values
+        // of it must be accepted - also a range that holds exactly one value. (Not required: a negative start
+        // with an unsuffixed non-negative end, which the parser cannot read; an exclusive end that is written
+        // with a suffix it does not fit, e.g. 0u8..256u8.)
+        let must_accept = !must_refuse && j.a <= hi && j.sa == j.sb && !(j.a < 0 && j.b >= 0 && j.sa.is_none()) && (j.sb.is_none() || j.ty.fits(j.b));
         let cp = match subject::compile(&text, Config { register: false, dedup: true }, HashMap::new()) {
             CompileOutcome::Ok(p) => p,
-            CompileOutcome::Rejected(_) => {
+            CompileOutcome::Rejected(e) => {
                 refused.fetch_add(1, Ordering::Relaxed);
+                if must_accept {
+                    coll.push(Violation::new("C08", site, "valid-range-pattern-refused", "", case(), e.chars().take(300).collect::<String>()));
+                }
                 return;
             }
             CompileOutcome::RustPanic(p) => {
